@@ -1,19 +1,34 @@
 // C09 LOCKSTEP harness for pika::latch on plain std::threads (default agent): count_down(n),
-// wait(), try_wait() under controller-chosen interleavings of the hooked steps
+// wait(), try_wait(), arrive_and_wait(n) under controller-chosen interleavings of the hooked steps
 //   911 counter_ -= n      912 first notify (lock, notified_ = true, notify_one)   913 next notify_one
 //   914 wait(): lock, test, enqueue     9001 agent suspend     916 woken, re-lock and re-test
 //   915 try_wait load
+//   917 arrive_and_wait: the whole critical section (lock, fetch_sub, then enqueue+unlock, or
+//       notified_ = true + first notify_one + unlock) — the hook sits BEFORE the lock, so the last
+//       arriver's two model steps (AW0, AWN: the lock is held in between) are one scheduled entry
+//   918 arrive_and_wait: next notify_one (before re-locking)
 // The extracted model (Model/Latch.v) replays the schedule and predicts the site of every step,
-// all try_wait results and who returned.  The total of the decrements equals the count, so every
+// all try_wait results, who returned, and the view of all threads (<op index>.<site parked at> |
+// <op index>B blocked in suspend | D) after every macro step (an entry "tf" is the forced suspend
+// step of a waiter on which the notifier blocks inside default_agent::resume).  The total of the decrements equals the count, so every
 // waiter must return (otherwise MONITOR latch_lockstep:stuck).
 #include "common/ctl.hpp"
 
 #include <pika/synchronization/latch.hpp>
 
+#include <algorithm>
+#include <atomic>
 #include <sstream>
 #include <string>
 #include <thread>
 #include <vector>
+
+// unhooked view of the counter for the monitor (members are protected)
+struct latch_view : pika::latch
+{
+    using pika::latch::latch;
+    std::ptrdiff_t count() const { return counter_.load(); }
+};
 
 int main(int argc, char** argv)
 {
@@ -46,29 +61,49 @@ int main(int argc, char** argv)
             if (ops[t].empty()) ops[t].push_back({'t', 0});
             // a thread never waits before its own decrements (it would block forever): move waits to the end
             std::stable_partition(ops[t].begin(), ops[t].end(), [](auto const& o) { return o.first != 'w'; });
+            // arrive_and_wait(n) = decrement + wait: only a thread's LAST decrement may become one
+            if (rng.chance(2, 5))
+                for (int k = (int) ops[t].size() - 1; k >= 0; --k)
+                    if (ops[t][k].first == 'c')
+                    {
+                        ops[t][k].first = 'a';
+                        break;
+                    }
             std::ostringstream p;
             for (size_t k = 0; k < ops[t].size(); ++k)
             {
                 p << (k ? "," : "") << ops[t][k].first;
-                if (ops[t][k].first == 'c') p << ops[t][k].second;
+                if (ops[t][k].first == 'c' || ops[t][k].first == 'a') p << ops[t][k].second;
             }
             progs[t] = p.str();
         }
-        pika::latch L(C);
-        vctl::Controller ctl(T, 911, 916);
+        latch_view L(C);
+        vctl::Controller ctl(T, 911, 918);
+        std::vector<int> early(T, 0);
+        std::vector<std::atomic<int>> pos(T);
+        for (auto& x : pos) x.store(0);
         std::vector<std::string> tries(T);
         std::vector<int> rets(T, 0);
         std::vector<std::thread> th;
         for (int t = 0; t < T; ++t)
             th.emplace_back([&, t] {
                 ctl.begin(t);
-                for (auto const& o : ops[t])
+                for (size_t k = 0; k < ops[t].size(); ++k)
                 {
+                    auto const& o = ops[t][k];
+                    pos[t].store((int) k);
                     if (o.first == 'c')
                         L.count_down(o.second);
+                    else if (o.first == 'a')
+                    {
+                        L.arrive_and_wait(o.second);
+                        if (L.count() > 0) ++early[t];
+                        ++rets[t];
+                    }
                     else if (o.first == 'w')
                     {
                         L.wait();
+                        if (L.count() > 0) ++early[t];
                         ++rets[t];
                     }
                     else
@@ -78,8 +113,23 @@ int main(int argc, char** argv)
             });
         if (!ctl.quiesce()) { std::printf("HARNESS-ERROR quiesce-start case=%d\n", cs); return 3; }
         ctl.release_all_parked();
-        std::ostringstream sched, sites;
-        bool first = true;
+        std::ostringstream sched, sites, views;
+        // view of all threads at every stable point (nobody blocked inside resume): the model predicts it
+        auto view = [&] {
+            std::ostringstream v;
+            std::lock_guard g(ctl.m);
+            for (size_t i = 0; i < ctl.s.size(); ++i)
+            {
+                auto& x = ctl.s[i];
+                if (i) v << ",";
+                if (x.st == vctl::DONE) v << "D";
+                else if (x.st == vctl::BLOCKED) v << pos[i].load() << (x.waiting_on ? "X" : "B");
+                else if (x.st == vctl::PARKED) v << pos[i].load() << "." << x.site;
+                else v << "?";
+            }
+            return v.str();
+        };
+        bool first = true, firstv = true;
         int nsteps = 0;
         bool stuck = false;
         for (;;)
@@ -91,11 +141,6 @@ int main(int argc, char** argv)
                 std::_Exit(0);
             }
             auto p = ctl.parked();
-            if (p.empty())
-            {
-                if (!ctl.blocked().empty()) stuck = true;
-                break;
-            }
             int t = -1;
             {
                 // a resumer blocked on a still running target: only the target may run now
@@ -105,9 +150,20 @@ int main(int argc, char** argv)
                         for (int i = 0; i < (int) ctl.s.size(); ++i)
                             if (ctl.s[i].st == vctl::PARKED && ctl.s[i].agent == x.waiting_on && ctl.s[i].site == 9001) t = i;
             }
+            bool forced = t >= 0;
+            if (!forced)
+            {
+                views << (firstv ? "" : ";") << view();
+                firstv = false;
+            }
+            if (p.empty())
+            {
+                if (!ctl.blocked().empty()) stuck = true;
+                break;
+            }
             if (t < 0) t = p[rng.below(p.size())];
             int site = ctl.site_of(t);
-            sched << (first ? "" : ",") << t;
+            sched << (first ? "" : ",") << t << (forced ? "f" : "");
             sites << (first ? "" : ",") << site;
             first = false;
             ctl.release(t);
@@ -125,6 +181,14 @@ int main(int argc, char** argv)
             std::_Exit(0);
         }
         for (auto& x : th) x.join();
+        for (int t = 0; t < T; ++t)
+            if (early[t])
+            {
+                std::printf("MONITOR latch_lockstep:early_return case=%d count=%d thread=%d: wait/arrive_and_wait returned while the counter was > 0 (sched %s)\n",
+                    cs, C, t, sched.str().c_str());
+                std::fflush(stdout);
+                std::_Exit(0);
+            }
         std::ostringstream in, out;
         in << "IN LLOCK " << cs << " " << C << " " << T;
         for (auto& p : progs) in << " " << p;
@@ -133,6 +197,7 @@ int main(int argc, char** argv)
         for (int t = 0; t < T; ++t) out << (t ? "|" : "") << tries[t];
         out << " rets=";
         for (int t = 0; t < T; ++t) out << (t ? "," : "") << rets[t];
+        out << " views=" << views.str();
         std::printf("%s\n%s\n", in.str().c_str(), out.str().c_str());
         std::fflush(stdout);
     }
